@@ -83,6 +83,31 @@ CLAIMED = {
              "names/descriptors, export 0/1, consecutive empty rotations, late parameter sets, all compression modes.",
         note="Trusted: as C12; rotate_output(int) on a name-opened exporter (documented misuse) is outside the model.",
         technique="Lean 4 proof (invariants over exporter operations) + differential correspondence", design="§4 C13"),
+    "C05": dict(
+        text="Lean 4: readToBuffer_spec and runW_refines - the real window/istream state machine refines the plain remaining-input view for "
+             "EVERY decoder program (end-of-input thrown exactly when no byte is left: empty input, k*65535 bytes, unreadable stream; never a "
+             "stale byte); run_append/run_prefix (extension stability of every program); prefix_blocks_sound and prefix_blocks (a reader on a "
+             "prefix returns exactly the leading blocks inside the prefix, then end-of-input). Tied by decoder-level runs at the buffer "
+             "multiples and by cutting exporter-produced files of 1-4 windows at every point around window multiples and block boundaries.",
+        note="Trusted: std::istream read/gcount/eof semantics modelled in Model/Window.lean; the library's block reader being a 'tight' decoder "
+             "program (never looks past the last byte it consumes) is validated by the exhaustive cuts at block boundaries, not proved.",
+        technique="Lean 4 proof (refinement + generic theorems over all decoder programs) + differential correspondence / cut-point enumeration", design="§4 C05"),
+    "C08": dict(
+        text="Lean 4 (decoder level): read results independent of head width, chunking, definite/indefinite starts; unknown member values of "
+             "any well-formed shape are skipped exactly (skip_exact); keys beyond int64 saturate and cannot alias known keys. Struct level "
+             "decided on the implementation: exporter-produced files rewritten by random compositions of all the rewrites (incl. unknown keys "
+             "with tagged/float/deeply nested values) must give the same reader dump; the independent Lean reader confirms each rewrite is "
+             "denotation-preserving.",
+        note="Partial proof: the struct-level theorem (read_denotes for every schema) is not yet proved; tie is differential. Trusted: "
+             "tools/cborgen.py rewrites, Spec/Cdns.lean.",
+        technique="Lean 4 proof at decoder level + metamorphic differential testing with an independent Lean reader as equivalence oracle", design="§4 C08"),
+    "C09": dict(
+        text="Lean 4: preamble keys = RFC 8618 (translator-regenerated), encoder->decoder round trip for every member kind the preamble uses "
+             "(uint/text/bytes/bool, C06+C07). Struct level decided on the implementation: random preambles (versions 0..255, optional private "
+             "version, 1..8 parameter sets, every optional subset, full-width integers, empty/long lists, arbitrary text, collection parameters "
+             "absent/empty/partial/full) written and read back by the library reader and by the independent Lean reader, member for member.",
+        note="Partial proof: generic schema round-trip theorem pending; tie is differential. Trusted: harness records.h renders every member.",
+        technique="Lean 4 proof of member-kind round trips + differential write/read with an independent Lean reader", design="§4 C09"),
 }
 REASON_PENDING = "check not built yet in this revision (work in progress; see DESIGN.md §8 build order)"
 
